@@ -129,18 +129,34 @@ func (f *c17Folder) fold(s *gen.Stream, depth int) {
 	for i := 0; i < len(s.Toks); i++ {
 		t := s.Toks[i]
 		name, ok := plainName(t)
-		if !ok || !t.CmdPos {
+		reservedStart := false
+		if t.Kind == gen.KReserved {
+			switch t.FlatText() {
+			case "!", "if", "while", "until", "{", "for", "case":
+				// a value may begin with a reserved word that starts a command:
+				// the alias name then stands where that word stood
+				name, ok, reservedStart = "", true, true
+			}
+		}
+		if !ok || !t.CmdPos && !reservedStart {
 			continue
 		}
 		if i+1 < len(s.Toks) && s.Toks[i+1].Kind == gen.KOp && s.Toks[i+1].FlatText() == "(" {
 			continue // a function name
+		}
+		if reservedStart && (i+1 >= len(s.Toks) || !foldable(s.Toks[i+1])) {
+			continue
 		}
 		if rapid.IntRange(0, 2).Draw(f.rt, "fold") != 0 {
 			continue
 		}
 		// extent of the run
 		j := i + 1
-		for want := rapid.IntRange(0, 5).Draw(f.rt, "runlen"); want > 0 && j < len(s.Toks) && foldable(s.Toks[j]); want-- {
+		minLen := 0
+		if reservedStart {
+			minLen = 1
+		}
+		for want := rapid.IntRange(minLen, 5).Draw(f.rt, "runlen"); want > 0 && j < len(s.Toks) && foldable(s.Toks[j]); want-- {
 			j++
 		}
 		// the run must not end next to a glued token
@@ -175,7 +191,7 @@ func (f *c17Folder) fold(s *gen.Stream, depth int) {
 		}
 		// a self-referential name is only safe when the name is in command
 		// position nowhere else (other occurrences would be replaced too)
-		if _, defined := f.aliases[name]; !defined && f.cmdPosCount[name] == inRun && rapid.IntRange(0, 3).Draw(f.rt, "selfref") == 0 {
+		if _, defined := f.aliases[name]; !reservedStart && !defined && f.cmdPosCount[name] == inRun && rapid.IntRange(0, 3).Draw(f.rt, "selfref") == 0 {
 			an = name
 			f.stats["self_reference"]++
 		}
@@ -187,6 +203,13 @@ func (f *c17Folder) fold(s *gen.Stream, depth int) {
 				bn := f.fresh()
 				f.aliases[bn] = nxName
 				f.used[nxName] = true // the value is examined in turn (a chain)
+				// the word examined because of the blank may itself lead through a chain
+				for k := rapid.IntRange(0, 2).Draw(f.rt, "blankchain"); k > 0; k-- {
+					outer := f.fresh()
+					f.aliases[outer] = bn
+					bn = outer
+					f.stats["chained_after_blank"]++
+				}
 				s.Toks[j] = &gen.Tok{Kind: gen.KWord, Pieces: []gen.Piece{{Text: bn}}}
 				blank = true
 				f.stats["via_trailing_blank"]++
@@ -197,7 +220,10 @@ func (f *c17Folder) fold(s *gen.Stream, depth int) {
 		}
 		// chain: fold the head of the value again
 		chain := 0
-		for depth+chain < 5 && rapid.IntRange(0, 2).Draw(f.rt, "chain") == 0 {
+		if reservedStart {
+			f.stats["value_starts_with_reserved_word"]++
+		}
+		for !reservedStart && depth+chain < 5 && rapid.IntRange(0, 2).Draw(f.rt, "chain") == 0 {
 			inner := f.fresh()
 			head := name
 			rest := strings.TrimPrefix(value, head)
